@@ -2,6 +2,7 @@
 FailuresAgree are invariants of every reachable REPL state; host-call acceptance rule) + replay through
 Code::parse / exec_unscoped / exec / Function::create_call."""
 import json
+import os
 from vlib import common as C
 
 
@@ -15,8 +16,20 @@ def run(tier):
     chk.add_tlc("MC_C17", res, "states = REPL states reachable by feeding every session in every split")
     rc, txt = C.run_vh(["api", out], timeout=3000)
     r = json.loads(txt)
+    # the scope API of Interpreter (insert / create_layer / drop_layer / get_variable) as its own state machine
+    ires = C.run_tlc("MC_Interp", "MC_Interp_thorough.cfg" if tier == "thorough" else "MC_Interp.cfg", workers=4, timeout=1200,
+                     name="interp_" + tier)
+    C.require_tlc_ok(ires, "MC_Interp (NearestWins, DropRestores)")
+    chk.add_tlc("MC_Interp", ires, "scope API: layers, lookups, drop")
+    ilog = os.path.join(C.WORK, "tlc_interp_%s.log" % tier)
+    rc, itxt = C.run_vh(["interp", ilog])
+    ir = json.loads(itxt)
+    for m in ir["mismatches"]:
+        chk.violation({"kind": "interpreter-scope-api", "what": m.get("kind")}, m)
     cov = chk.cov
-    cov["traces_validated_against_impl"] = r["repl_inputs"] + r["host_calls"] + r["sessions"]
+    cov["scope_api_behaviours"] = ir["behaviours"]
+    cov["scope_api_lookups_checked"] = ir["checks"]
+    cov["traces_validated_against_impl"] = r["repl_inputs"] + r["host_calls"] + r["sessions"] + ir["behaviours"]
     cov["evaluations"] = r["repl_inputs"] + r["host_calls"] + 2 * r["sessions"]
     cov["distinct_nontrivial"] = r["sessions"] + r["host_calls"]
     cov["rule"] = ("every sequence of <= MaxLen statements from a 12-statement pool (constants, hidden values, cells, closures, "
